@@ -639,6 +639,8 @@ def _pure(e, allow_alloc=False):
                         return False
                 elif fn.attr == "get" and len(n.args) in (1, 2):
                     pass      # mapping read
+                elif fn.attr in ("values", "keys", "items") and not n.args and not n.keywords:
+                    pass      # mapping views
                 elif fn.attr in PURE_METHODS and fn.attr not in MUTATORS:
                     pass      # a pure method of the analysed package
                 else:
@@ -943,6 +945,22 @@ def _impure_calls(s):
     return out
 
 
+def _is_ref_chain(x):
+    """x / self.a.b (bindings that never change) / a basic-slicing view of such a chain"""
+    if isinstance(x, ast.Name):
+        return True
+    if isinstance(x, ast.Attribute):
+        return (x.attr in STABLE_ATTRS or (isinstance(x.value, ast.Name) and x.value.id[:1].isupper())) and _is_ref_chain(x.value)
+    if isinstance(x, ast.Subscript) and _is_ref_chain(x.value):
+        idx = x.slice.elts if isinstance(x.slice, ast.Tuple) else [x.slice]
+        if any(isinstance(i_, ast.Slice) for i_ in idx) and all(
+                isinstance(i_, ast.Slice) and all(b is None or isinstance(b, ast.Constant) for b in (i_.lower, i_.upper, i_.step))
+                or (isinstance(i_, ast.Constant) and isinstance(i_.value, int))
+                or (isinstance(i_, ast.Name) and i_.id in INT_NAMES) for i_ in idx):
+            return True
+    return False
+
+
 def _conflict(e, stmts):
     """can the statements change the value of e?  (stores to an operand, or a
     call with side effects that may change state that e reads)"""
@@ -994,7 +1012,7 @@ def _conflict(e, stmts):
             ops = names - {"np", "numpy"}
             for c in calls:
                 involved = set()
-                if isinstance(c.func, ast.Attribute) and c.func.attr in ("append", "extend", "insert", "add") or (isinstance(c.func, ast.Name) and c.func.id in ("print",)):
+                if isinstance(c.func, ast.Attribute) and c.func.attr in ("append", "extend", "insert", "add") or (isinstance(c.func, ast.Name) and c.func.id in ("print",)) or (isinstance(c.func, ast.Attribute) and c.func.attr == "warn"):
                     # container methods change the receiver only, never their arguments
                     cand = [c.func.value] if isinstance(c.func, ast.Attribute) else []
                 else:
@@ -1315,7 +1333,7 @@ def _forward_subst(fnode, unknown, cnt):
         n_defs = 0
         for block in _all_blocks(fnode):
             for i, D in enumerate(block):
-                sn, _ = _stores_of(D) if not isinstance(D, (ast.If, ast.For, ast.While, ast.Try, ast.With)) else (set(), set())
+                sn = _names(D, (ast.Store, ast.Del)) if not isinstance(D, (ast.If, ast.For, ast.While, ast.Try, ast.With)) else set()
                 if isinstance(D, ast.For) and u in _names(D.target):
                     ok = False
                 if u not in sn:
@@ -1335,11 +1353,14 @@ def _forward_subst(fnode, unknown, cnt):
                         plan_ok = False
                 if u in _names(E):
                     plan_ok = False
+                is_alias = _is_ref_chain(E)
                 uses = []
                 for j in range(i + 1, len(block)):
                     S = block[j]
                     ls = _loads_of(S, u)
-                    redefined = u in _stores_of(S)[0]
+                    redefined = u in _names(S, (ast.Store, ast.Del))
+                    if not redefined and u in _stores_of(S)[0] and not is_alias:
+                        plan_ok = False      # the value bound to u is changed in place: it is no longer E
                     compound = isinstance(S, (ast.If, ast.For, ast.While, ast.Try, ast.With))
                     if compound and redefined:
                         # the loads inside S belong to the definitions inside S
@@ -1362,7 +1383,7 @@ def _forward_subst(fnode, unknown, cnt):
                             for k in range(j + 1, len(block)):
                                 if _loads_of(block[k], u):
                                     ok = False
-                                if not isinstance(block[k], (ast.If, ast.For, ast.While, ast.Try, ast.With)) and u in _stores_of(block[k])[0]:
+                                if not isinstance(block[k], (ast.If, ast.For, ast.While, ast.Try, ast.With)) and u in _names(block[k], (ast.Store, ast.Del)):
                                     break      # unconditionally redefined: later loads read that definition
                         break
                 if single_use_only and len(uses) != 1:
@@ -1770,26 +1791,44 @@ def _alias_collapse(fnode, unknown, cnt):
     plans = {}
     for block in _all_blocks(fnode):
         for i, D in enumerate(block):
-            if not (isinstance(D, ast.Assign) and len(D.targets) == 1 and isinstance(D.targets[0], ast.Name) and D.targets[0].id in unknown):
+            if not (isinstance(D, ast.Assign) and len(D.targets) == 1):
                 continue
-            u = D.targets[0].id
-            for j in range(i + 1, len(block)):
-                S = block[j]
-                if u not in _names(S):
-                    continue
-                if isinstance(S, ast.Assign) and len(S.targets) == 1 and isinstance(S.targets[0], (ast.Name, ast.Tuple)) and isinstance(S.value, ast.Name) and S.value.id == u \
-                        and all(isinstance(x, ast.Name) for x in (S.targets[0].elts if isinstance(S.targets[0], ast.Tuple) else [S.targets[0]])):
-                    t = S.targets[0]
-                    tn = _names(t)
-                    between = block[i + 1:j]
-                    if not any(tn & _names(b) for b in between) and not (tn & (_names(D.value) | {u})):
-                        # (every read of u is accounted for by exactly one plan, see below)
-                        plans.setdefault(u, []).append((block, D, S, t))
-                break
+            if isinstance(D.targets[0], ast.Name) and D.targets[0].id in unknown:
+                us_ = [D.targets[0].id]
+            elif isinstance(D.targets[0], ast.Tuple) and all(isinstance(e, (ast.Name, ast.Attribute)) for e in D.targets[0].elts):
+                us_ = [e.id for e in D.targets[0].elts if isinstance(e, ast.Name) and e.id in unknown]
+            else:
+                continue
+            for u in us_:
+                for j in range(i + 1, len(block)):
+                    S = block[j]
+                    if u not in _names(S):
+                        continue
+                    def self_field(x):
+                        return isinstance(x, ast.Attribute) and isinstance(x.value, ast.Name) and x.value.id in ("self",)
+                    if isinstance(S, ast.Assign) and len(S.targets) == 1 and isinstance(S.value, ast.Name) and S.value.id == u and (
+                            isinstance(S.targets[0], ast.Name) or self_field(S.targets[0])
+                            or (isinstance(S.targets[0], ast.Tuple) and isinstance(D.targets[0], ast.Name) and all(isinstance(x, ast.Name) for x in S.targets[0].elts))):
+                        t = S.targets[0]
+                        tn = _names(t) - {"self"}
+                        ttext = ast.unparse(t)
+                        between = block[i + 1:j]
+                        clash = any((tn & _names(b)) or (self_field(t) and any(isinstance(x, ast.Attribute) and x.attr == t.attr for x in ast.walk(b))) for b in between)
+                        if self_field(t) and any(isinstance(x, ast.Call) and not _pure(x, allow_alloc=True) for b in between for x in ast.walk(b)):
+                            clash = True      # a call in between may read the field
+                        if not clash and not (tn & (_names(D.value) | {u})):
+                            # (every read of u is accounted for by exactly one plan, see below)
+                            plans.setdefault(u, []).append((block, D, S, t))
+                    break
     for u, ps in plans.items():
         if len(ps) == len(loads.get(u, [])) == nstores.get(u, 0):
             for block, D, S, t in ps:
-                D.targets = [t]
+                if isinstance(D.targets[0], ast.Tuple):
+                    D.targets[0].elts = [(t if (isinstance(e, ast.Name) and e.id == u) else e) for e in D.targets[0].elts]
+                    if isinstance(t, ast.Attribute):
+                        t.ctx = ast.Store()
+                else:
+                    D.targets = [t]
                 block.remove(S)
             cnt.stats["aliases_collapsed"] = cnt.stats.get("aliases_collapsed", 0) + len(ps)
             return True
@@ -1915,6 +1954,101 @@ def _static_seq(e):
             return None
     t = ast.Tuple(elts=out, ctx=ast.Load())
     return ast.copy_location(t, e)
+
+
+def _loop_over_filter(fnode, cnt):
+    """for t in [t for t in X if C]: BODY   ->   for t in X: if C: BODY
+    (BODY does not change X or what C reads; no break/continue subtleties: both are kept as they are)"""
+    changed = False
+    for n in ast.walk(fnode):
+        if isinstance(n, ast.For) and isinstance(n.iter, (ast.ListComp, ast.GeneratorExp)) and not n.orelse and len(n.iter.generators) == 1:
+            g = n.iter.generators[0]
+            if not (isinstance(n.iter.elt, ast.Name) and isinstance(g.target, ast.Name) and isinstance(n.target, ast.Name) and n.iter.elt.id == g.target.id and g.ifs and not g.is_async):
+                continue
+            cond = g.ifs[0] if len(g.ifs) == 1 else ast.BoolOp(op=ast.And(), values=list(g.ifs))
+            if not _pure(cond) or not _pure(g.iter):
+                continue
+            if _conflict(g.iter, n.body) or _conflict(cond, n.body):
+                continue
+            if any(isinstance(x, (ast.Break, ast.Continue)) for b in n.body for x in ast.walk(b)):
+                continue
+            if g.target.id != n.target.id:
+                cond = _subst_names(clone(cond), {g.target.id: ast.Name(id=n.target.id, ctx=ast.Load())})
+            test = ast.If(test=cond, body=n.body, orelse=[])
+            ast.copy_location(test, n)
+            n.iter = g.iter
+            n.body = [test]
+            ast.fix_missing_locations(n)
+            cnt.stats["filter_loops"] = cnt.stats.get("filter_loops", 0) + 1
+            changed = True
+    return changed
+
+
+def _while_counter_to_for(fnode, cnt):
+    """k = a ; while k < N: BODY ; k += 1   ->   for k in range(a, N): BODY
+    (BODY neither rebinds k nor contains `continue`; N is not changed by BODY;
+    k is not read after the loop before being rebound)"""
+    changed = False
+    for block in _all_blocks(fnode):
+        for i in range(1, len(block)):
+            W, I = block[i], block[i - 1]
+            if not (isinstance(W, ast.While) and not W.orelse and isinstance(W.test, ast.Compare) and len(W.test.ops) == 1 and isinstance(W.test.left, ast.Name)):
+                continue
+            k = W.test.left.id
+            op, N = W.test.ops[0], W.test.comparators[0]
+            if not isinstance(op, ast.Lt):
+                continue
+            if not (isinstance(I, ast.Assign) and len(I.targets) == 1 and isinstance(I.targets[0], ast.Name) and I.targets[0].id == k and isinstance(I.value, ast.Constant) and isinstance(I.value.value, int)):
+                continue
+            body = W.body
+            if not body:
+                continue
+            last = body[-1]
+            if not (isinstance(last, ast.AugAssign) and isinstance(last.target, ast.Name) and last.target.id == k and isinstance(last.op, ast.Add) and isinstance(last.value, ast.Constant) and last.value.value == 1):
+                continue
+            rest = body[:-1]
+            bad = False
+            for S in rest:
+                if k in _names(S, (ast.Store, ast.Del)):
+                    bad = True
+                # a `continue` of this loop would skip the increment
+                def has_continue(stmts, depth=0):
+                    for x in stmts:
+                        if isinstance(x, ast.Continue) and depth == 0:
+                            return True
+                        inner = depth + (1 if isinstance(x, (ast.For, ast.While)) else 0)
+                        for b in _stmt_lists(x):
+                            if has_continue(b, inner):
+                                return True
+                    return False
+                if has_continue([S]):
+                    bad = True
+            if bad or not _pure(N) or _conflict(N, rest):
+                continue
+            # k after the loop: rebound before any read?
+            later_read = False
+            for S in block[i + 1:]:
+                if k in _names(S, ast.Load):
+                    later_read = True
+                    break
+                if k in _names(S, (ast.Store, ast.Del)) and not isinstance(S, (ast.If, ast.While, ast.Try, ast.With)):
+                    break
+            if later_read:
+                continue
+            # (k may also be read after the enclosing block ends; keep it simple: the function must not read k after the loop at all)
+            after = False
+            seen = False
+            for n in ast.walk(fnode):
+                pass
+            a = I.value.value
+            rng = ast.Call(func=ast.Name(id="range", ctx=ast.Load()), args=([N] if a == 0 else [ast.Constant(a), N]), keywords=[])
+            F = ast.For(target=ast.Name(id=k, ctx=ast.Store()), iter=rng, body=rest or [ast.Pass()], orelse=[], type_comment=None)
+            ast.copy_location(F, W)
+            ast.fix_missing_locations(F)
+            block[i - 1:i + 1] = [F]
+            cnt.stats["while_counters"] = cnt.stats.get("while_counters", 0) + 1
+            return True
+    return changed
 
 
 def _for_else_to_while(fnode, cnt):
@@ -2075,6 +2209,167 @@ def _refs_outside(tree, name, own):
     return False
 
 
+def restore_function_names(trees_by_module):
+    """a private function / method of the reference tree that has disappeared
+    while an unknown one with (mostly) the same identifiers has appeared in the
+    same scope was renamed: rename it back, at its definition and wherever the
+    new name is used (all modules)"""
+    renames = {}
+    for modname, tree in trees_by_module.items():
+        v = vocab().get(modname)
+        if v is None:
+            continue
+        known = v["functions"]
+        ref_ids = v.get("idents", {})
+        scopes = {None: [n for n in tree.body if isinstance(n, ast.FunctionDef)]}
+        for n in tree.body:
+            if isinstance(n, ast.ClassDef):
+                scopes[n.name] = [it for it in n.body if isinstance(it, ast.FunctionDef) and not any(isinstance(d, ast.Attribute) and d.attr == "setter" for d in it.decorator_list)]
+        for scope, fns in scopes.items():
+            pre = f"{scope}." if scope else ""
+            present = {f.name for f in fns}
+            missing = [k[len(pre):] for k in known if k.startswith(pre) and "." not in k[len(pre):] and (scope is not None or "." not in k) and k[len(pre):] not in present and not k.endswith(".setter")]
+            if scope is None:
+                missing = [k for k in known if "." not in k and k not in present]
+            unknown = [f for f in fns if (pre + f.name) not in known]
+            if not missing or not unknown:
+                continue
+            scores = []
+            for f in unknown:
+                ids = set()
+                for n in ast.walk(f):
+                    if isinstance(n, ast.Name):
+                        ids.add(n.id)
+                    elif isinstance(n, ast.Attribute):
+                        ids.add(n.attr)
+                    elif isinstance(n, ast.arg):
+                        ids.add(n.arg)
+                for k in missing:
+                    ref = set(ref_ids.get(pre + k, []))
+                    if not ref:
+                        continue
+                    # the function's own old name may occur in the reference set (recursion); ignore names of both
+                    a, b = ids - {f.name}, ref - {k}
+                    j = len(a & b) / max(1, len(a | b))
+                    scores.append((j, f, k))
+            scores.sort(key=lambda t: -t[0])
+            used_f, used_k = set(), set()
+            for j, f, k in scores:
+                if j < 0.6 or id(f) in used_f or k in used_k:
+                    continue
+                # unique best on both sides by a clear margin
+                rivals = [j2 for j2, f2, k2 in scores if (f2 is f) != (k2 == k) and (f2 is f or k2 == k)]
+                if rivals and max(rivals) > j - 0.15:
+                    continue
+                used_f.add(id(f))
+                used_k.add(k)
+                if k.startswith("_") and not k.startswith("__"):
+                    renames[f.name] = k
+    if not renames:
+        return {}
+    # the new names must be new everywhere (not names of the reference tree)
+    all_known = set()
+    for v in vocab().values():
+        for k in v["functions"]:
+            all_known.add(k.split(".")[-1])
+    renames = {a: b for a, b in renames.items() if a not in all_known}
+    for tree in trees_by_module.values():
+        for n in ast.walk(tree):
+            if isinstance(n, ast.FunctionDef) and n.name in renames:
+                n.name = renames[n.name]
+            elif isinstance(n, ast.Name) and n.id in renames:
+                n.id = renames[n.id]
+            elif isinstance(n, ast.Attribute) and n.attr in renames:
+                n.attr = renames[n.attr]
+            elif isinstance(n, ast.alias) and n.name in renames:
+                n.name = renames[n.name]
+    return renames
+
+
+def restore_return_order(trees_by_module):
+    """a function of the reference tree whose returned tuple is a permutation
+    of the reference tuple (same element expressions): permute it back at the
+    return statements and at every call site that unpacks or indexes the
+    result; if any use of the result has another shape nothing is changed"""
+    done = {}
+    for modname, tree in trees_by_module.items():
+        v = vocab().get(modname)
+        if v is None or not v.get("returns"):
+            continue
+        for key, ref in v["returns"].items():
+            name = key.split(".")[-1]
+            cls = key.split(".")[0] if "." in key else None
+            fn = None
+            for n in tree.body:
+                if cls is None and isinstance(n, ast.FunctionDef) and n.name == name:
+                    fn = n
+                if cls is not None and isinstance(n, ast.ClassDef) and n.name == cls:
+                    for it in n.body:
+                        if isinstance(it, ast.FunctionDef) and it.name == name:
+                            fn = it
+            if fn is None:
+                continue
+            rets = [r for r in ast.walk(fn) if isinstance(r, ast.Return) and r.value is not None]
+            if not rets or not all(isinstance(r.value, ast.Tuple) and len(r.value.elts) == len(ref) for r in rets):
+                continue
+            cur = [ast.unparse(e) for e in rets[0].value.elts]
+            if any([ast.unparse(e) for e in r.value.elts] != cur for r in rets):
+                continue
+            if cur == ref or sorted(cur) != sorted(ref):
+                continue
+            perm = [cur.index(t) for t in ref]        # reference position i <- current position perm[i]
+            # every use of the result, in every module
+            uses, okk = [], True
+            other_defs = sum(1 for t in trees_by_module.values() for n in ast.walk(t) if isinstance(n, ast.FunctionDef) and n.name == name)
+            if other_defs != 1:
+                continue       # several functions of that name: call sites cannot be attributed by name
+            for t in trees_by_module.values():
+                parents = {}
+                for n in ast.walk(t):
+                    for ch in ast.iter_child_nodes(n):
+                        parents[id(ch)] = n
+                for n in ast.walk(t):
+                    if isinstance(n, ast.Call) and ((isinstance(n.func, ast.Name) and n.func.id == name) or (isinstance(n.func, ast.Attribute) and n.func.attr == name)):
+                        par = parents.get(id(n))
+                        if isinstance(par, ast.Assign) and par.value is n and len(par.targets) == 1 and isinstance(par.targets[0], (ast.Tuple, ast.List)) and len(par.targets[0].elts) == len(ref) \
+                                and not any(isinstance(e, ast.Starred) for e in par.targets[0].elts):
+                            uses.append(("unpack", par))
+                        elif isinstance(par, ast.Subscript) and par.value is n and isinstance(par.slice, ast.Constant) and isinstance(par.slice.value, int) and 0 <= par.slice.value < len(ref):
+                            uses.append(("index", par))
+                        elif isinstance(par, ast.Assign) and par.value is n and len(par.targets) == 1 and isinstance(par.targets[0], ast.Name):
+                            # u = f(..) ; only u[c] afterwards (checked loosely: every load of u is a constant subscript)
+                            u = par.targets[0].id
+                            owner = None
+                            for fdef in ast.walk(t):
+                                if isinstance(fdef, ast.FunctionDef) and any(x is par for x in ast.walk(fdef)):
+                                    owner = fdef
+                            subs = [x for x in ast.walk(owner)] if owner is not None else []
+                            loads = [x for x in subs if isinstance(x, ast.Name) and x.id == u and isinstance(x.ctx, ast.Load)]
+                            idx = [x for x in subs if isinstance(x, ast.Subscript) and isinstance(x.value, ast.Name) and x.value.id == u and isinstance(x.slice, ast.Constant) and isinstance(x.slice.value, int)]
+                            stores = [x for x in subs if isinstance(x, ast.Name) and x.id == u and isinstance(x.ctx, ast.Store)]
+                            if owner is None or len(loads) != len(idx) or len(stores) != 1:
+                                okk = False
+                            else:
+                                uses.extend(("index", x) for x in idx)
+                        elif isinstance(par, ast.Return) and par.value is n:
+                            okk = False
+                        else:
+                            okk = False
+            if not okk:
+                continue
+            inv = {perm[i]: i for i in range(len(ref))}   # current position -> reference position
+            for r in rets:
+                r.value.elts = [r.value.elts[perm[i]] for i in range(len(ref))]
+            for kind, node in uses:
+                if kind == "unpack":
+                    tg = node.targets[0]
+                    tg.elts = [tg.elts[perm[i]] for i in range(len(ref))]
+                else:
+                    node.slice = ast.copy_location(ast.Constant(inv[node.slice.value]), node.slice)
+            done[key] = perm
+    return done
+
+
 def normalize_module(tree, modname):
     """rewrite `tree` in place; returns statistics"""
     cnt = _Counter()
@@ -2227,6 +2522,14 @@ def normalize_module(tree, modname):
             pass
     for f in post_try:
         _split_isinstance_handlers(f, cnt)
+    for cname, f in all_functions():
+        if any(isinstance(x, ast.For) and isinstance(x.iter, (ast.ListComp, ast.GeneratorExp)) for x in ast.walk(f)):
+            _loop_over_filter(f, cnt)
+    for cname, f in all_functions():
+        if any(isinstance(x, ast.While) for x in ast.walk(f)):
+            for _ in range(8):
+                if not _while_counter_to_for(f, cnt):
+                    break
     for cname, f in all_functions():
         if any(isinstance(x, ast.For) and x.orelse for x in ast.walk(f)):
             if _for_else_to_while(f, cnt):
